@@ -254,11 +254,17 @@ class Shadow:
             elif h["kind"] == "original_accessed_while_a_stand_in_holds_newer_data":
                 out.add(self.COH if h["saved_later"] else "stand_in_data_never_copied_back")
             elif h["kind"] == "fill_overwrites_data_written_in_an_earlier_loop_iteration":
-                out.add("stand_in_refilled_in_a_loop_before_its_data_was_copied_back")
+                if "deepwriter:" + str(self.st.get(h["root"], {}).get("cast_name")) in getattr(self, "redundant", ()):
+                    out.add("fill_left_in_a_loop_although_the_first_user_writes_two_regions_below_the_cast")
+                else:
+                    out.add("stand_in_refilled_in_a_loop_before_its_data_was_copied_back")
             elif h["kind"] == "fill_overwrites_stand_in_holding_newer_data":
                 out.add("writer_before_first_reader_and_writer_after_it" if h["saved_later"] else "fill_overwrites_newer_data_that_is_never_copied_back")
             elif h["kind"] == "stand_in_read_before_it_was_filled" and self.st[h["root"]].get("has_fill"):
-                out.add("fill_of_stand_in_sits_in_a_loop_that_did_not_run")
+                if "deepwriter:" + str(self.st.get(h["root"], {}).get("cast_name")) in getattr(self, "redundant", ()):
+                    out.add("fill_left_in_a_loop_although_the_first_user_writes_two_regions_below_the_cast")
+                else:
+                    out.add("fill_of_stand_in_sits_in_a_loop_that_did_not_run")
             else:
                 out.add(h["kind"])
         return sorted(out)
@@ -527,6 +533,36 @@ class Gen:
                 cond = ("for", [cond])
             tail = [("use", x, self.newtag())] if self.rnd.random() < 0.5 else [(self.rnd.choice(["gen", "dart"]), x, x, self.pick("F", writable=True), "F", self.newtag())]
             body = [first, cond] + tail + body[:2]
+        if family == "hoisted_casts":
+            # one buffer written two regions below function level (inner trip count depends on the outer counter), then
+            # read, then written again; the casts of this family are shared and sit at function level
+            # (only allocations get shared casts: their other consumers are kept out of this family, so that "filled
+            # before the first reader, copied back after the last writer" is all that coherence needs)
+            x = self.rnd.choice(["%a0", "%a1"])
+            mentions = lambda st: any(mentions(t) for t in st if isinstance(t, (list, tuple))) or any(t in ("%a0", "%a1") or (isinstance(t, str) and t in alloc_views) for t in st)
+            alloc_views = {nm for nm, base, off in self.views if base in ("%a0", "%a1")}
+            def prune(stmts):
+                out = []
+                for st in stmts:
+                    if st[0] in ("use", "copy") and mentions(st):
+                        continue
+                    if st[0] in ("gen", "dart") and any(t in alloc_views for t in st):
+                        continue
+                    if st[0] == "for":
+                        st = ("for", prune(st[1])) + tuple(st[2:])
+                    elif st[0] == "if":
+                        st = ("if", st[1], prune(st[2]), prune(st[3]) if st[3] is not None else None)
+                    out.append(st)
+                return out
+            body = prune(body)
+            def w():
+                return (self.rnd.choice(["gen", "dart"]), self.pick("F"), self.pick("F"), x, "F", self.newtag())
+            def r():
+                return (self.rnd.choice(["gen", "dart"]), x, self.pick("F"), self.rnd.choice([v for v in ("%b0", "%b1", "%a0", "%a1") if v != x]), "F", self.newtag())
+            inner = self.rnd.choice([("for", [w()], "tri"), ("for", [w()]), ("if", self.rnd.randrange(2), [w()], None), ("for", [w(), r()], "tri")])
+            outer = self.rnd.choice([("for", [inner]), ("for", [inner, r()]), ("if", self.rnd.randrange(2), [inner], None), ("for", [r(), inner])])
+            tail = [r()] + ([w()] if self.rnd.random() < 0.7 else [])
+            body = body[1:2] + [outer] + tail + body[:1]
         if tiles:
             pre = []
             for nm, base, off in self.views[:2]:
@@ -551,6 +587,7 @@ def render(prog):
     views, body, ret = prog
     L = []
     n = [0]
+    ivs = []
     ty = lambda v: type_of(views, v)
 
     def emit(stmts, ind):
@@ -564,8 +601,12 @@ def render(prog):
                 L.append(P + f'"test.op"({s[1]}) {{tag = {s[2]} : i32}} : ({ty(s[1])}) -> ()')
             elif s[0] == "for":
                 n[0] += 1
-                L.append(P + f"scf.for %i{n[0]} = %lb to %ub step %st {{")
+                # "tri": the lower bound is the enclosing loop's counter, so the trip count differs between outer iterations
+                lo = ivs[-1] if len(s) > 2 and s[2] == "tri" and ivs else "%lb"
+                L.append(P + f"scf.for %i{n[0]} = {lo} to %ub step %st {{")
+                ivs.append(f"%i{n[0]}")
                 emit(s[1], ind + 1)
+                ivs.pop()
                 L.append(P + "}")
             elif s[0] == "if":
                 L.append(P + f"scf.if %cond{s[1]} {{")
@@ -599,20 +640,46 @@ builtin.module {{
 """
 
 
-def insert_layout_casts(main, m, rnd, share):
+def insert_layout_casts(main, m, rnd, share, hoist=False):
     """stand-in for set-memory-layout: put a snax.layout_cast to a dense tiled-strided layout in front of some operands
     of the accelerator operations (one cast per operand and operation, inserted directly before the operation)."""
-    from xdsl.dialects import builtin
+    from xdsl.dialects import builtin, memref
     from xdsl.parser import Parser
     from xdsl.rewriter import InsertPoint, Rewriter
 
     from snaxc.dialects.snax import LayoutCast
 
     n = 0
+    if hoist:
+        # one cast per buffer, shared by all accelerator operations that use it, at function level in front of the
+        # statement that contains the first of them (what hoisting / CSE of the per-operation casts leaves behind)
+        f = [g for g in irsym.module_funcs(m) if g.sym_name.data == "f"][0]
+        top = f.body.blocks[0]
+        seen = {}
+        for op in list(m.walk()):
+            if op.name in ("linalg.generic", "dart.operation"):
+                for i, o in enumerate(op.operands):
+                    if not isinstance(o.type, builtin.MemRefType):
+                        continue
+                    if o not in seen:
+                        if not (isinstance(o.owner, memref.AllocOp) and o.owner.parent_block() is top) or rnd.random() < 0.2:
+                            seen[o] = None
+                        else:
+                            shape = tuple(o.type.get_shape())
+                            lay = Parser(main.ctx, rnd.choice(share[shape])).parse_attribute()
+                            lc = LayoutCast.from_type_and_target_layout(o, lay)
+                            anc = op
+                            while anc.parent_block() is not top:
+                                anc = anc.parent_op()
+                            Rewriter.insert_op(lc, InsertPoint.before(anc))
+                            seen[o] = lc.dest
+                            n += 1
+                    if seen[o] is not None:
+                        op.operands[i] = seen[o]
     for op in list(m.walk()):
         if op.name in ("linalg.generic", "dart.operation"):
             for i, o in enumerate(op.operands):
-                if not isinstance(o.type, builtin.MemRefType) or rnd.random() < 0.45:
+                if not isinstance(o.type, builtin.MemRefType) or rnd.random() < 0.45 or (hoist and o.owner.name == "snax.layout_cast"):
                     continue
                 shape = tuple(o.type.get_shape())
                 lay = Parser(main.ctx, rnd.choice(share[shape])).parse_attribute()
@@ -650,6 +717,19 @@ def mark_casts(m):
         for b in msc[i + 1:]:
             if a.operands[0] is b.operands[0] and a.results[0].type == b.results[0].type and all(before(a, u.operation) for u in b.results[0].uses):
                 redundant.add(b.results[0].name_hint)
+    # casts whose first user (in program order) only writes them and sits two or more regions below the cast: the
+    # fill belongs at the level of the cast, in front of everything
+    for op in casts:
+        users = {u.operation: u for u in op.results[0].uses}
+        first = next((o for o in op.parent_block().walk() if o in users), None)
+        if first is None or first.name not in ("linalg.generic", "dart.operation") or op.results[0] in first.inputs:
+            continue
+        depth, anc = 0, first
+        while anc is not None and anc.parent_block() is not op.parent_block():
+            anc = anc.parent_op()
+            depth += 1
+        if depth >= 2:
+            redundant.add("deepwriter:" + op.results[0].name_hint)
     return redundant
 
 
@@ -677,7 +757,8 @@ def case_prog(case, K=2):
     from xdsl.dialects import builtin
     from xdsl.parser import Parser
 
-    prog, seed, clear = case
+    prog, seed, clear = case[:3]
+    hoist = len(case) > 3 and case[3]
     src = render(prog)
 
     def fn():
@@ -689,7 +770,7 @@ def case_prog(case, K=2):
         m2 = m1.clone()
         xshim.apply_passes(m2, "alloc-to-global,set-memory-space", main)
         share = {(R, C): dense_layouts(rnd, (R, C), 3), (2, C): dense_layouts(rnd, (2, C), 3)}
-        ncast = insert_layout_casts(main, m2, rnd, share)
+        ncast = insert_layout_casts(main, m2, rnd, share, hoist)
         m2.verify()
         staged = str(m2)
         redundant = mark_casts(m2)
@@ -814,6 +895,104 @@ def case_relayout(case):
     return run_case(fn, replay, signature=lambda f, v: f["name"], sample=dict(shape=shape, layout=layout_txt, bits=ety), key=str(case))
 
 
+def case_global_relayout(case):
+    """realize-memref-casts on a module whose accelerator operand is a constant memref.global reached through a layout
+    cast (optionally behind a memory-space cast): whatever global the operand reads afterwards must hold, at the
+    address its layout prescribes, the logical element of the original initial value - for every element type."""
+    from xdsl.dialects import builtin, memref
+    from xdsl.parser import Parser
+
+    shape, layout_txt, ety, via_msc = case
+    n = 1
+    for d in shape:
+        n *= d
+    isf = ety.startswith("f")
+    vals = [(3 * k + 1) % 120 + (0.5 if isf else 0) for k in range(n)]
+    shp = "x".join(str(d) for d in shape)
+    lit = lambda k: (f"{vals[k]:.1f}" if isf else str(vals[k]))
+
+    def nest(dims, off):
+        if len(dims) == 1:
+            return "[" + ", ".join(lit(off + k) for k in range(dims[0])) + "]"
+        sub = 1
+        for d in dims[1:]:
+            sub *= d
+        return "[" + ", ".join(nest(dims[1:], off + k * sub) for k in range(dims[0])) + "]"
+
+    FT = f"memref<{shp}x{ety}>"
+    LT = f"memref<{shp}x{ety}, {layout_txt}>"
+    if via_msc:
+        chain = f"""    %m = "memref.memory_space_cast"(%g) : ({FT}) -> memref<{shp}x{ety}, "L1">
+    %c = "snax.layout_cast"(%m) : (memref<{shp}x{ety}, "L1">) -> memref<{shp}x{ety}, {layout_txt}, "L1">"""
+        LT = f'memref<{shp}x{ety}, {layout_txt}, "L1">'
+    else:
+        chain = f'    %c = "snax.layout_cast"(%g) : ({FT}) -> {LT}'
+    src = f"""
+builtin.module {{
+  "memref.global"() <{{alignment = 64 : i64, constant, initial_value = dense<{nest(list(shape), 0)}> : tensor<{shp}x{ety}>, sym_name = "w", sym_visibility = "private", type = {FT}}}> : () -> ()
+  func.func public @f() {{
+    %g = memref.get_global @w : {FT}
+{chain}
+    "test.op"(%c) {{tag = 1 : i32}} : ({LT}) -> ()
+    func.return
+  }}
+}}
+"""
+
+    def fn():
+        E = eng()
+        main = xshim.make_main()
+        m = Parser(main.ctx, src).parse_module()
+        m.verify()
+        xshim.apply_passes(m, "realize-memref-casts", main)
+        m.verify()
+        use = [o for o in m.walk() if o.name == "test.op"][0]
+        v = use.operands[0]
+        hops = []
+        while not isinstance(v.owner, memref.GetGlobalOp):
+            if v.owner.name not in ("memref.memory_space_cast",):
+                # the cast was kept (copy at run time): nothing was re-laid-out at compile time
+                E.oblige("global:relayout_applied_or_cast_kept", v.owner.name in ("memref.alloc", "snax.layout_cast"), dict(owner=v.owner.name))
+                E.oblige("explored", True)
+                return
+            hops.append(v.owner.name)
+            v = v.owner.operands[0]
+        gname = v.owner.name_.string_value()
+        g = [o for o in m.walk() if isinstance(o, memref.GlobalOp) and o.sym_name.data == gname]
+        E.oblige("global:operand_reads_an_existing_global", len(g) == 1, dict(name=gname))
+        if len(g) != 1:
+            return
+        g = g[0]
+        init = g.initial_value
+        has = isinstance(init, builtin.DenseIntOrFPElementsAttr)
+        E.oblige("global:re_laid_out_global_keeps_its_initial_value", has, dict(initial_value=str(init)[:60], element_type=ety))
+        if not has:
+            return
+        out = [float(x) if isf else int(x) for x in init.get_values()]
+        E.oblige("global:same_number_of_elements", len(out) == n, dict(n=n, got=len(out)))
+        if len(out) != n:
+            return
+        sort = z3.RealSort() if isf else z3.IntSort()
+        mk = (lambda x: z3.RealVal(str(x))) if isf else z3.IntVal
+        A = z3.K(z3.IntSort(), mk(-1))
+        for k, x in enumerate(out):
+            A = z3.Store(A, k, mk(x))
+        S = z3.K(z3.IntSort(), mk(-2))
+        for k, x in enumerate(vals):
+            S = z3.Store(S, k, mk(x))
+        idx = [z3.Int(f"i{d}") for d in range(len(shape))]
+        E.assume(z3.And(*[z3.And(i >= 0, i < b) for i, b in zip(idx, shape)]))
+        f = addr_fn(v.type)
+        rm = addr_fn(builtin.MemRefType(v.type.element_type, shape))
+        E.oblige("global:element_at_prescribed_address_is_the_logical_element", z3.Select(A, f(idx)) == z3.Select(S, rm(idx)), dict(layout=str(v.type.layout), shape=shape, element_type=ety))
+        E.oblige("explored", True)
+
+    def replay(f):
+        return replay_pinned(fn, f)
+
+    return run_case(fn, replay, signature=lambda f, v: f["name"], sample=dict(shape=shape, layout=layout_txt, element_type=ety, via_memory_space_cast=via_msc), key=str(case))
+
+
 def case_transpose(case):
     """RemoveTransposeConstants.transpose_tuple on symbolic contents: out[i][j] == in[j][i] for every position."""
     from snaxc.transforms.frontend.remove_transpose_constants import RemoveTransposeConstants
@@ -901,14 +1080,15 @@ def run(chk):
     chk.assumptions = ["accelerator operations overwrite their whole output operand and do not read it (as the upstream expectations for "
                        "realize-memref-casts assume); elementwise uninterpreted functions per operation",
                        "every allocation is initialised before use (contents of a fresh allocation are arbitrary)",
-                       "layout casts are inserted like set-memory-layout does (one per operand and operation, directly before it); "
+                       "layout casts are inserted like set-memory-layout does (one per operand and operation, directly before it), or, in one family, one shared cast per buffer at function level; "
                        "the layouts themselves are random dense tilings, not the ones an accelerator would request",
                        "loops unrolled to K=2", "one memref.get_global per global"]
     progs = []
     n = 140 if quick else 1600
     for k in range(n):
         g = Gen(rnd)
-        progs.append((g.program("constant_tiles" if k % 4 == 3 else "branch_writers" if k % 6 == 1 else "mixed"), rnd.randrange(1 << 30), False))
+        fam = "constant_tiles" if k % 4 == 3 else "branch_writers" if k % 6 == 1 else "hoisted_casts" if k % 6 == 2 else "mixed"
+        progs.append((g.program(fam), rnd.randrange(1 << 30), False) + ((True,) if fam == "hoisted_casts" else ()))
     chk.add_results("programs", pmap(case_prog, progs, chunks=4))
     lays = []
     shapes = [(4, 4), (2, 4), (4, 8), (8, 8), (4, 6), (16,), (2, 3, 4)]
@@ -916,6 +1096,11 @@ def run(chk):
         for txt in sorted(set(dense_layouts(rnd, shape, 6 if quick else 40))):
             lays.append((shape, txt, rnd.choice([8, 32]), rnd.choice(["tensor", "memref"])))
     chk.add_results("relayout", pmap(case_relayout, lays, chunks=4))
+    glob = []
+    for k, (shape, txt, _, _) in enumerate(lays):
+        if len(shape) <= 2 and (not quick or k % 2 == 0):
+            glob.append((shape, txt, ("i8", "i32", "f32", "f64", "i16", "f16", "index")[k % 7], k % 3 == 0))
+    chk.add_results("global_relayout", pmap(case_global_relayout, glob, chunks=4))
     tr = [(r, c) for r in range(1, 6) for c in range(1, 6)]
     chk.add_results("transpose_tuple", pmap(case_transpose, tr if not quick else tr[::2], chunks=2))
     chk.add_results("transpose_pattern", pmap(case_transpose_pattern, [(2, 3), (3, 2), (4, 4), (1, 5), (5, 1), (3, 5)], chunks=2))
